@@ -99,3 +99,5 @@ def run(ctx):
     # --follow-links over link targets in every spelling (absolute through another link, with `..`, chains): one file = one replica
     from . import links_rt
     links_rt.follow_alias_check(ctx, ctx.pick(40, 500))
+    # hard-linked files whose first-tried path cannot be processed (path-specific transform failure), length-changing transform
+    links_rt.hardlink_fallback_transform_check(ctx, ctx.pick(12, 120))
